@@ -32,6 +32,7 @@ ATTR_TYPES = {
     ('Arbiter', 'watchers'): 'list[Watcher]',
     ('Arbiter', '_watchers_names'): 'dict[Watcher]',
     ('Controller', 'arbiter'): 'Arbiter',
+    ('Controller', 'commands'): 'dict[Command*]',
     ('Controller', 'sys_hdl'): 'SysHandler',
     ('SysHandler', 'controller'): 'Controller',
     ('Process', 'watcher'): 'Watcher',
@@ -212,9 +213,13 @@ class Resolver(object):
             r = self.p.resolve_name(finfo.module, expr.id)
             if r is not None:
                 return None
-            if expr.id in finfo.module.imports or expr.id in EXTERNAL_MODULES:
+            if expr.id in finfo.module.imports:
                 return EXTERNAL
-            return NAME_TYPES.get(expr.id)
+            if expr.id in NAME_TYPES:
+                return NAME_TYPES[expr.id]
+            if expr.id in EXTERNAL_MODULES:
+                return EXTERNAL
+            return None
         if isinstance(expr, ast.Attribute):
             base_t = self.type_of(expr.value, finfo, lt)
             for key in ((base_t, expr.attr), ('*', expr.attr)):
